@@ -105,7 +105,10 @@ func genesisState(k int) *State {
 	c1 := nd.TimeRange("c1", TLo, THi)
 	nd.Assume(c1.After(st.T0))
 	// one shared bucket: entries of two validators and two denoms of the same validator
-	InstallUnbonding(e, 0, c1, []Entry{{0, 0, nd.IntRange("q1", "1", Pow30)}, {1, 0, nd.IntRange("q2", "1", Pow30)}, {0, 1, nd.IntRange("q3", "1", Pow30)}})
+	q1, q2, q3 := nd.IntRange("q1", "1", Pow30), nd.IntRange("q2", "1", Pow30), nd.IntRange("q3", "1", Pow30)
+	InstallUnbonding(e, 0, c1, []Entry{{0, 0, q1}, {1, 0, q2}, {0, 1, q3}})
+	// regime for concrete witnesses only (the continuation's slash multiplies these)
+	nd.Hint(nd.And(q1.Equal(math.NewInt(1000)), q2.Equal(math.NewInt(2000)), q3.Equal(math.NewInt(3000))))
 	rc := nd.TimeRange("rc1", TLo, THi)
 	nd.Assume(rc.After(st.T0))
 	InstallRedelegation(e, 0, 0, 1, 0, nd.IntRange("r1", "1", Pow30), rc)
@@ -166,6 +169,7 @@ func H_C18_cont() {
 		boundIntervals(st, t1, 2)
 	} else {
 		f = nd.DecRange("fraction", "0.000000000000000001", "1")
+		nd.Hint(f.Equal(math.LegacyNewDecWithPrec(5, 1)))
 	}
 	run := func(e *env.Env) (err error, panicked bool) {
 		panicked = Caught(func() {
